@@ -1928,6 +1928,13 @@ class Interp:
             const = present if isinstance(n.ops[0], ast.In) else (not present)
             tags = frozenset(["static"])
             self.emit(st, "key-test", n, key=left.const, mapping=rights[0])
+        elif len(rights) == 1 and isinstance(n.ops[0], (ast.In, ast.NotIn)) and left.has_const() and isinstance(left.const, (str, int)) \
+                and rights[0].kind in ("list", "tuple") and rights[0].items is not None and not rights[0].al \
+                and all(i_ is not None and i_.has_const() for i_ in rights[0].items):
+            # membership in a sequence whose items are all known constants (a table of names)
+            present = left.const in [i_.const for i_ in rights[0].items]
+            const = present if isinstance(n.ops[0], ast.In) else (not present)
+            tags = frozenset(["static"])
         elif len(rights) == 1 and left.has_const() and rights[0].has_const():
             try:
                 a, b = left.const, rights[0].const
@@ -1956,7 +1963,9 @@ class Interp:
         return out
 
     def e_IfExp(self, n, st):
-        self.ev(n.test, st)
+        tv = self.ev(n.test, st)
+        if tv.has_const() and isinstance(tv.const, bool) and "static" in tv.tags:
+            return self.ev(n.body if tv.const else n.orelse, st)        # a test decided by constants alone
         a = self.ev(n.body, st)
         b = self.ev(n.orelse, st)
         return join_vals(a, b)
